@@ -231,15 +231,22 @@ const (
 )
 
 func (s *session) changeStatus(stat int32) {
+	verifEnter()
+	verifEvent("st", s, int64(atomic.LoadInt32(&s.status)), int64(stat))
 	atomic.StoreInt32(&s.status, stat)
+	verifLeave()
 }
 
 func (s *session) tryChangeStatus(to int32, fromList ...int32) (changed bool) {
+	verifEnter()
 	for _, from := range fromList {
 		if atomic.CompareAndSwapInt32(&s.status, from, to) {
+			verifEvent("st", s, int64(from), int64(to))
+			verifLeave()
 			return true
 		}
 	}
+	verifLeave()
 	return false
 }
 
@@ -263,6 +270,7 @@ func (s *session) goonRead() bool {
 
 func (s *session) notifyClosed() {
 	if atomic.CompareAndSwapInt32(&s.didCloseNotify, 0, 1) {
+		verifEvent("notify", s, 0, 0)
 		close(s.closeNotifyCh)
 	}
 }
@@ -686,6 +694,7 @@ func (s *session) AsyncCall(
 	}
 
 	seq := atomic.AddInt32(&s.seq, 1)
+	verifGate("call.seq", s)
 	output.SetSeq(seq)
 
 	if output.BodyCodec() == codec.NilCodecID {
@@ -720,6 +729,7 @@ func (s *session) AsyncCall(
 	defer cmd.mu.Unlock()
 
 	s.callCmdMap.Store(seq, cmd)
+	verifGate("call.store", s)
 
 	defer func() {
 		if p := recover(); p != nil {
@@ -742,6 +752,7 @@ W:
 		return cmd
 	}
 
+	verifGate("call.written", s)
 	s.peer.pluginContainer.postWriteCall(cmd)
 	return cmd
 }
@@ -772,24 +783,33 @@ func (s *session) closeLocked() error {
 	if !s.tryChangeStatus(statusActiveClosing, statusOk, statusPreparing) {
 		return nil
 	} // readDisconnected is being called
+	verifGate("close.cas", s)
 	s.peer.sessHub.delete(s.ID())
+	verifGate("close.hubdel", s)
 	s.notifyClosed()
 	s.graceCtxWait()
+	verifGate("close.ctxwait", s)
 	s.graceCallCmdWaitGroup.Wait()
+	verifGate("close.callwait", s)
 	s.changeStatus(statusActiveClosed)
+	verifGate("close.sock", s)
 	err := s.socket.Close()
+	verifGate("close.hook", s)
+	verifEvent("disc", s, 1, 0)
 	s.peer.pluginContainer.postDisconnect(s)
 	return err
 }
 
 func (s *session) readDisconnected(oldConn net.Conn, err error) {
 	status := s.getStatus()
+	verifGate("disc.load", s)
 	switch status {
 	case statusPassiveClosed, statusActiveClosed, statusPassiveClosing:
 		return
 	case statusActiveClosing:
 	default:
 		s.changeStatus(statusPassiveClosing)
+		verifGate("disc.store", s)
 	}
 
 	s.peer.sessHub.delete(s.ID())
@@ -804,6 +824,7 @@ func (s *session) readDisconnected(oldConn net.Conn, err error) {
 	s.graceCtxWait()
 
 	// cancel the callCmd that is waiting for a reply
+	verifGate("disc.cancel", s)
 	s.callCmdMap.Range(func(_, v interface{}) bool {
 		callCmd := v.(*callCmd)
 		callCmd.mu.Lock()
@@ -819,9 +840,12 @@ func (s *session) readDisconnected(oldConn net.Conn, err error) {
 	}
 
 	s.socket.Close()
+	verifGate("disc.redial", s)
 	if !s.redialForClient(oldConn) {
 		s.changeStatus(statusPassiveClosed)
 		s.notifyClosed()
+		verifGate("disc.hook", s)
+		verifEvent("disc", s, 2, 0)
 		s.peer.pluginContainer.postDisconnect(s)
 	}
 }
@@ -833,6 +857,7 @@ func (s *session) redialForClient(oldConn net.Conn) bool {
 	s.lock.Lock()
 	defer s.lock.Unlock()
 	// Avoid repeated calls from write and readDisconnected methods
+	verifGate("redial.locked", s)
 	if oldConn != s.getConn() {
 		return true
 	}
@@ -872,6 +897,7 @@ func (s *session) startReadAndHandle() {
 			return
 		}
 		err = s.socket.ReadMessage(ctx.input)
+		verifGate("read.msg", s)
 		if (err != nil && ctx.GetBodyCodec() == codec.NilCodecID) || !s.goonRead() {
 			s.peer.putContext(ctx, false)
 			return
@@ -879,6 +905,7 @@ func (s *session) startReadAndHandle() {
 		if err != nil {
 			ctx.stat = statBadMessage.Copy(err)
 		}
+		verifGate("read.add", s)
 		s.graceCtxWaitGroup.Add(1)
 		if !Go(func() {
 			defer s.peer.putContext(ctx, true)
@@ -892,6 +919,7 @@ func (s *session) startReadAndHandle() {
 func (s *session) write(message Message) (net.Conn, *Status) {
 	usedConn := s.getConn()
 	status := s.getStatus()
+	verifGate("write.check", s)
 	if !(status == statusOk || (status == statusActiveClosing && message.Mtype() == TypeReply)) {
 		return usedConn, statConnClosed
 	}
@@ -951,6 +979,7 @@ func newSessionHub() *SessionHub {
 
 // set sets a *session.
 func (sh *SessionHub) set(sess *session) {
+	verifEvent("hubset", sess, 0, 0)
 	_sess, loaded := sh.sessions.LoadOrStore(sess.ID(), sess)
 	if !loaded {
 		return
